@@ -16,6 +16,9 @@
 (*   Redo        collectRedo(k): getRedo drains In item by item, GetAll, Spool.Ingest (bulk)  *)
 (*   Spool       Writer (InRT / InBulk -> queueBuffer), Buffer (queueBuffer -> disk FIFO,     *)
 (*               abstract here, concrete in DiskQueue.tla), SlowChan (read-ahead of one)      *)
+(*   Operator    address update (Destination.Update addr=..., route.UpdateDestination, `modDest .. addr=`):  *)
+(*               updateConn(newaddr) in the caller's goroutine -- the connector's handshake, but     *)
+(*               possibly while the relay holds a live connection, which is then simply replaced     *)
 (*   Endpoint    mode \in {absent, blackhole, slow, healthy, closing, paused}, changes at any  *)
 (*               step; "paused" = a healthy endpoint that makes no progress for a while (keeps  *)
 (*               the connection, reads nothing) and then resumes and reads everything          *)
@@ -39,13 +42,15 @@ CONSTANTS N,            \* number of lines the sender hands off
           InitModes,    \* set of initial endpoint modes
           Modes,        \* set of modes the endpoint may switch to
           FixRedoWaits, \* TRUE: getRedo waits for HandleData to have exited (the F10 repair)
+          AddrUpd,      \* BOOLEAN: the operator may point the destination at another endpoint (address update; counts as a change)
           Mutant        \* "" or the name of a deviation (non-vacuity / what a defect would look like)
 
 AllModes == {"absent", "blackhole", "slow", "healthy", "closing", "paused"}
 ASSUME InitModes \subseteq AllModes /\ Modes \subseteq AllModes
 ASSUME Mutant \in {"", "BlockingSend", "DialInLoop", "DropNoCount", "RedoSkipDrain", "DropSafeOld",
                    "NoIngest", "UnspoolWhileSlow", "LoseReadAhead", "SpoolDropNoCount", "DownDropNoCount",
-                   "WriteTimeoutDrop", "DeadDropNoCount", "BlockingUnspool"}
+                   "WriteTimeoutDrop", "DeadDropNoCount", "BlockingUnspool", "SyncFlushOldConn"}
+ASSUME AddrUpd \in BOOLEAN
 
 VARIABLES
   next, sender,                          \* Sender: next line 1..N+1; "idle" | "waiting"
@@ -187,13 +192,31 @@ RelayInConn ==    \* case inConnUpdate := <-dest.inConnUpdate
                      ELSE numCU' = numCU - 1 /\ ctor' = "none"
   /\ UNCHANGED <<senderV, conn, unspoolOK, slowNow, slowLast, rhold, newconn, connV, redoV, spoolV, epV, cntV>>
 
+\* A connection delivered while one is still held (conn # 0) happens only after an address update (OpAddrUpdate; a
+\* reconnect is started only with conn = nil).  The code just overwrites `conn`: the previous connection is abandoned
+\* without waiting for anything (its writer may sit in a socket write to an endpoint that never reads).
+\* Deviation "SyncFlushOldConn": the relay flushes and closes the previous connection inline before it takes the new
+\* one (conn.Flush() is a synchronous handshake with that connection's writer, conn.Close() waits for it to exit):
+\* with the writer parked in a write that never completes the relay loop sits there and dest.In is not read any more.
 RelayConnUpdate == \* case conn = <-dest.connUpdates
-  /\ rpc = "sel" /\ ctor = "deliver" /\ rpc' = "top"
-  /\ conn' = newconn /\ newconn' = 0 /\ ctor' = "fin" /\ slowNow' = FALSE /\ slowLast' = FALSE
+  /\ rpc = "sel" /\ ctor = "deliver" /\ ctor' = "fin"
+  /\ IF Mutant = "SyncFlushOldConn" /\ conn # 0
+       THEN rpc' = "oflush" /\ UNCHANGED <<conn, newconn, slowNow, slowLast>>     \* newconn = the relay's local newConn
+       ELSE rpc' = "top" /\ conn' = newconn /\ newconn' = 0 /\ slowNow' = FALSE /\ slowLast' = FALSE
   /\ UNCHANGED <<senderV, unspoolOK, numCU, rhold, connV, redoV, spoolV, epV, cntV>>
 
+\* only with Mutant = "SyncFlushOldConn": the previous connection's writer was in its select, took the flush request,
+\* got everything out of the io buffer and answered; Close(): alive(false), shutdown, socket closed, writer gone
+RelayOldFlushDone ==
+  /\ rpc = "oflush" /\ hd[conn] = "idle" /\ wbuf[conn] = <<>>
+  /\ alive' = [alive EXCEPT ![conn] = FALSE] /\ shut' = [shut EXCEPT ![conn] = TRUE] /\ sock' = [sock EXCEPT ![conn] = "closed"]
+  /\ hd' = [hd EXCEPT ![conn] = "exit"] /\ ksdone' = [ksdone EXCEPT ![conn] = TRUE]
+  /\ rpc' = "top" /\ conn' = newconn /\ newconn' = 0 /\ slowNow' = FALSE /\ slowLast' = FALSE
+  /\ UNCHANGED <<senderV, unspoolOK, numCU, rhold, ctor, redoV, spoolV, epV, cntV,
+                 nconn, cin, hdl, ksOld, ksNew, wbuf, kern>>
+
 RelayBranch == RelayIn \/ RelayUnspool \/ RelayTick \/ RelayInConn \/ RelayConnUpdate
-Relay == RelayTop \/ RelayBranch \/ RelayBSendDone \/ RelayDialDone
+Relay == RelayTop \/ RelayBranch \/ RelayBSendDone \/ RelayDialDone \/ RelayOldFlushDone
 
 -----------------------------------------------------------------------------
 (* Connector: updateConn's NewConn (the handshake with the relay is in RelayInConn/RelayConnUpdate) *)
@@ -203,6 +226,17 @@ Dial ==
        THEN NewConn(nconn + 1) /\ newconn' = nconn + 1 /\ ctor' = "deliver"
        ELSE ctor' = "fin" /\ UNCHANGED <<nconn, alive, sock, hd, newconn>>
   /\ UNCHANGED <<senderV, relayV, redoV, spoolV, epV, cntV, cin, shut, hdl, ksOld, ksNew, ksdone, wbuf, kern>>
+
+\* Operator: the destination is pointed at another endpoint, which behaves like m (dest.Update -> updateConn(addr) in the
+\* caller's goroutine: announce, dial the new address, deliver, finish -- the connector's steps; one connector at a
+\* time, cf. A2).  The relay may hold a live connection to the previous address at that moment.  From here on `mode`
+\* is the behaviour of the endpoint at the new address; the endpoint at the previous address, if a connection to it
+\* is left over, either behaves the same or never reads again (nothing is assumed about EpRead in Spec06).  If the
+\* dial fails the address is not taken over.  No steady state is claimed across an address update.
+OpAddrUpdate(m) ==
+  /\ AddrUpd /\ Dialable(m) /\ ctor = "none" /\ nconn < MaxConn /\ changes < MaxChanges
+  /\ ctor' = "ann" /\ mode' = m /\ changes' = changes + 1 /\ steady' = "none"
+  /\ UNCHANGED <<senderV, relayV, newconn, connV, redoV, spoolV, received, cntV>>
 
 -----------------------------------------------------------------------------
 (* Connection k                                                               *)
@@ -343,7 +377,7 @@ Endpoint == (\E k \in K : EpRead(k) \/ EpCloseSock(k)) \/ (\E m \in Modes : EpCh
 -----------------------------------------------------------------------------
 Next == SenderOffer \/ Relay \/ Dial
         \/ (\E k \in K : ConnWriter(k) \/ CheckEOF(k) \/ KsRotate(k) \/ Redo(k))
-        \/ SpoolProc \/ Endpoint
+        \/ SpoolProc \/ Endpoint \/ (\E m \in Modes : OpAddrUpdate(m))
 
 Spec == Init /\ [][Next]_vars
 
@@ -351,7 +385,12 @@ Spec == Init /\ [][Next]_vars
 \* cases, hence strong fairness of the In branch; nothing is assumed about the connection writer,
 \* the connector, the spool or the endpoint.
 Spec06 == Spec /\ WF_vars(SenderOffer) /\ WF_vars(RelayTop) /\ SF_vars(RelayIn)
-               /\ WF_vars(RelayBSendDone)
+               /\ WF_vars(RelayBSendDone) /\ WF_vars(RelayOldFlushDone)
+
+\* ... and with fair connection writers on top (used to reject deviation "SyncFlushOldConn" for the right reason: the
+\* writer of the previous connection is not merely unscheduled, it cannot move -- io buffer and kernel buffers full
+\* towards an endpoint that does not read)
+Spec06W == Spec06 /\ \A k \in K : WF_vars(ConnWriter(k))
 
 \* C07 liveness: every process of the relay is fair; the endpoint reads when it is in a reading mode
 Spec07 == Spec /\ WF_vars(SenderOffer) /\ WF_vars(RelayTop)
